@@ -262,6 +262,7 @@ def reviewedGuards : List (String × String × String × String × String) := [
   ("src/fqe/wavefunction.py", "Wavefunction.__init__", "raise", "TypeError", "not self._conserve_spin and (not self._conserve_number)"),
   ("src/fqe/wavefunction.py", "Wavefunction.__init__", "raise", "ValueError", "len(user_input_norbs) != 1 && param"),
   ("src/fqe/wavefunction.py", "Wavefunction.ax_plus_y", "raise", "ValueError", "self._civec.keys() != wfn._civec.keys()"),
+  ("src/fqe/wavefunction.py", "Wavefunction.ax_plus_y", "raise", "ValueError", "self._norb != wfn._norb"),
   ("src/fqe/wavefunction.py", "Wavefunction.apply", "raise", "TypeError", "self._conserve_number && not self._conserve_number or not hamil.conserve_number()"),
   ("src/fqe/wavefunction.py", "Wavefunction.apply", "raise", "TypeError", "hamil.conserve_number() && not self._conserve_number or not hamil.conserve_number()"),
   ("src/fqe/wavefunction.py", "Wavefunction.apply", "raise", "ValueError", "hamil.dim() != expected && not (isinstance(hamil, diagonal_coulomb.DiagonalCoulomb))"),
